@@ -461,4 +461,167 @@ example : ∃ o, kltsaEmbedModel exκ 4 1 true 1 (1 / 10) (bruteSearch (kernelDi
   subst ho'
   exact ⟨_, ho, rfl, rfl, by decide, fun i c => by simp⟩
 
+/-! ## Hessian LLE
+
+`hlleEmbedModel` is `HessianLocallyLinearEmbeddingImplementation::embed`
+(include/tapkee/methods/hessian_locally_linear_embedding.hpp), composed the same way:
+
+    find_neighbors_with(kernel_distance)            Connected.findNeighbors (search = C02 model)           C02 / C03
+    k = neighbors[0].size(), neighbors[i][j]        Connected.forwardOf (bounds) + LleCompose.nbOf         glue
+    gram(i,j) = gram(j,i) = κ(n_i, n_j), centerMatrix   LocallyLinear.localCentered                         C08
+    sae_solver.compute(gram).eigenvectors().rightCols(d)   parameter `localEig` (contract Spectral.IsTopEig)  oracle
+    Yi = [1 | U | products], Gram–Schmidt, colsum, rightCols(dp), triplets   LocallyLinear.hlleM (`sqrtO`, `thr = 1e-4`)   C08
+    eigendecomposition_via(SmallestEigenvalues), leftCols(d + 1).rightCols(d)   as for KLLE                C08 -/
+
+/-- everything HLLE's `embed` computes on the way -/
+structure OutH (N d : Nat) (K : Type) where
+  found : Found
+  /-- `neighbors[0].size()` as read by `hessian_weight_matrix` -/
+  k : Nat
+  nb : Fin N → Fin k → Fin N
+  /-- `sae_solver.eigenvectors().rightCols(d)` of the centred local Gram matrix, one per sample -/
+  U : Fin N → Mat k d K
+  /-- the matrix handed to `eigendecomposition_via` -/
+  M : Mat N N K
+  V : Mat N N K
+  lam : Vec N K
+  Y : Mat N d K
+
+/-- **`HessianLocallyLinearEmbeddingImplementation::embed`, composed.**  `sqrtO` is libm's `sqrt` (column norms of the
+    Gram–Schmidt sweep), `thr` the constant `1e-4` of the column-sum step. -/
+def hlleEmbedModel (κ : Nat → Nat → K) (N k : Nat) (check : Bool) (d : Nat) (search : Nat → Graph)
+    (localEig : (k : Nat) → Mat k k K → Mat k d K) (sqrtO : K → K) (thr : K)
+    (solver : Mat N N K → Mat N N K × Vec N K) : Except Err (OutH N d K) :=
+  match findNeighbors search N check (findFuel N) k [] with
+  | .oob => .error .knnOob
+  | .fuelOut => .error .knnFuel
+  | .ok f =>
+    match forwardOf N (degree f.graph) f.graph with
+    | none => .error .nbOob
+    | some fwd =>
+      if d ≤ degree f.graph then
+        match hlleM (nbOf fwd N (degree f.graph)) sqrtO thr
+            (fun i => localEig _ (localCentered (kMat κ N) (nbOf fwd N (degree f.graph) i))) with
+        | .error e => .error (.hlle e)
+        | .ok M =>
+          if hd : 1 + d ≤ N then
+            .ok { found := f, k := degree f.graph, nb := nbOf fwd N (degree f.graph),
+                  U := fun i => localEig _ (localCentered (kMat κ N) (nbOf fwd N (degree f.graph) i)),
+                  M := M, V := (solver M).1, lam := (solver M).2,
+                  Y := fun i c => (solver M).1 i (shiftIdx 1 hd c) }
+          else .error .colsOob
+      else .error .localColsOob
+
+/-- **hlle_end_to_end.**  As `kltsa_end_to_end` (`1 ≤ d ≤ k`), for every `sqrtO` and `thr`:
+
+    the composed model returns (no error state of any stage — in particular the column bookkeeping of
+    `hessian_weight_matrix` reaches no out-of-range / clobbered / unwritten column, `C08.hlle_index_ok`), and
+    1.–3. as for KLLE;
+    4. `U i` is the local eigensolver's outcome on `centerMatrix` of the symmetric Gram matrix of THOSE neighbours (entry by
+       entry, rows summing to zero), `d ≤ k'`, and the local block is `H_i H_iᵀ`, `H_i = Yi.rightCols(dp)` (`C08.hlle_proj_eq`);
+    5. the matrix handed to the solver IS `Σ_i S_i (H_i H_iᵀ) S_iᵀ` (`C08.hlle_M_eq`);
+    6. `Y` = columns `1 … d` of the solver's `V`; and whenever `(V, λ)` meets the solver contract `GenEigSystem` on that
+       matrix, the threshold is non-negative, `sqrtO` is exact on the squared norms that occur with no vanishing remainder
+       (`GsExact`: the Gram–Schmidt contract is then a theorem about the as-written sweep, `C08.hlle_gs_contract`) and the
+       trivial eigenvalue `0` is simple: `YᵀY = 1`, every column of `Y` sums to zero, `tr(YᵀMY) = Σ λ_{1+c}` and `Y`
+       minimises `tr(ZᵀMZ)` over all orthonormal `Z ⟂ 1` (`C08.hlle_end_to_end`). -/
+theorem hlle_end_to_end (κ : Nat → Nat → K) (sqrtD : K → K) {N : Nat} (hN : 0 < N) {k : Nat} (hk : 1 ≤ k)
+    (hkN : k ≤ N - 1) {d : Nat} (hdk : d ≤ k) (hd : 1 + d ≤ N)
+    (search : Nat → Graph) (hlen : ∀ k, (search k).length = N)
+    (hexact : ∀ k, k ≤ N - 1 → ∀ u (hu : u < (search k).length),
+      IsExactKnn (kernelDist sqrtD κ) (List.range N) k u (search k)[u])
+    (localEig : (k : Nat) → Mat k k K → Mat k d K) (sqrtO : K → K) (thr : K)
+    (solver : Mat N N K → Mat N N K × Vec N K) :
+    ∃ o, hlleEmbedModel κ N k true d search localEig sqrtO thr solver = .ok o ∧
+      -- 1. k doubling
+      (∃ j, o.found.k = min (k * 2 ^ j) (N - 1) ∧ k ≤ o.found.k ∧
+        isConnected N o.found.graph = .ok true ∧ StronglyConnected o.found.graph N ∧
+        (∀ j', j' < j → ¬ StronglyConnected (search (min (k * 2 ^ j') (N - 1))) N) ∧
+        o.found.tried = (List.range (j + 1)).map fun j' => min (k * 2 ^ j') (N - 1)) ∧
+      -- 2. exact k'-NN lists w.r.t. the kernel-induced distance
+      (o.found.graph = search o.found.k ∧ o.found.graph.length = N ∧
+        ∀ u (hu : u < o.found.graph.length),
+          IsExactKnn (kernelDist sqrtD κ) (List.range N) o.found.k u o.found.graph[u]) ∧
+      -- 3. the neighbourhoods read by `hessian_weight_matrix`
+      (o.k = o.found.k ∧
+        (∀ (i : Fin N) (a : Fin o.k), ∃ l, o.found.graph[i.1]? = some l ∧ l[a.1]? = some (o.nb i a).1) ∧
+        (∀ i, Function.Injective (o.nb i)) ∧ ∀ (i : Fin N) (a : Fin o.k), o.nb i a ≠ i) ∧
+      -- 4. local centred Gram matrices, local bases, local Hessian blocks
+      ((∀ i, o.U i = localEig o.k (localCentered (kMat κ N) (o.nb i))) ∧ d ≤ o.k ∧
+        (∀ (i : Fin N) (a b : Fin o.k), localGramSym (kMat κ N) (o.nb i) a b
+          = if a ≤ b then κ (o.nb i a).1 (o.nb i b).1 else κ (o.nb i b).1 (o.nb i a).1) ∧
+        (∀ (i : Fin N) (a b : Fin o.k), localCentered (kMat κ N) (o.nb i) a b
+          = localGramSym (kMat κ N) (o.nb i) a b
+            + (∑ a', ∑ b', localGramSym (kMat κ N) (o.nb i) a' b') / ((o.k * o.k : Nat) : K)
+            - (∑ a', localGramSym (kMat κ N) (o.nb i) a' b) / (o.k : K)
+            - (∑ a', localGramSym (kMat κ N) (o.nb i) a' a) / (o.k : K)) ∧
+        (∀ (i : Fin N) (a : Fin o.k), ∑ b, localCentered (kMat κ N) (o.nb i) a b = 0) ∧
+        (∀ (i : Fin N) (a b : Fin o.k),
+          hlleProj sqrtO thr (o.U i) a b = ((hlleH sqrtO thr (o.U i)).map fun h => h.get a * h.get b).sum)) ∧
+      -- 5. the alignment matrix
+      (hlleM o.nb sqrtO thr o.U = .ok o.M ∧
+        Mat.toM o.M = ∑ i, S (o.nb i) * Mat.toM (hlleProj sqrtO thr (o.U i)) * (S (o.nb i))ᵀ) ∧
+      -- 6. spectral part
+      ((o.V, o.lam) = solver o.M ∧ Mat.toM o.Y = cols (Mat.toM o.V) (shiftIdx 1 hd) ∧
+        (GenEigSystem (Mat.toM o.M) 1 (Mat.toM o.V) o.lam → 0 ≤ thr →
+          (∀ i, GsExact sqrtO [] (hlleYi0 (o.U i))) → (∀ j : Fin N, j.1 ≠ 0 → o.lam j ≠ 0) →
+          (Mat.toM o.Y)ᵀ * Mat.toM o.Y = 1 ∧ (∀ c, ∑ i, Mat.toM o.Y i c = 0) ∧
+          Matrix.trace ((Mat.toM o.Y)ᵀ * Mat.toM o.M * Mat.toM o.Y) = ∑ c, o.lam (shiftIdx 1 hd c) ∧
+          ∀ Z : Matrix (Fin N) (Fin d) K, Zᵀ * Z = 1 → (∀ c, ∑ i, Z i c = 0) →
+            Matrix.trace ((Mat.toM o.Y)ᵀ * Mat.toM o.M * Mat.toM o.Y) ≤ Matrix.trace (Zᵀ * Mat.toM o.M * Z))) := by
+  obtain ⟨f, hf⟩ := findNeighbors_terminates (kernelDist sqrtD κ) search hN hk hlen hexact
+  obtain ⟨j, hkj, hgraph, hsc, hmin, htried⟩ := k_raised_only_if_needed search hN _ k f hf
+  have hk'le : f.k ≤ N - 1 := by rw [hkj]; exact Nat.min_le_right _ _
+  have hkle : k ≤ f.k := by
+    rw [hkj]; exact Nat.le_min.2 ⟨Nat.le_mul_of_pos_right k (Nat.pow_pos (by omega)), hkN⟩
+  have hex' : ∀ u (hu : u < f.graph.length), IsExactKnn (kernelDist sqrtD κ) (List.range N) f.k u f.graph[u] := by
+    rw [hgraph]; exact hexact _ hk'le
+  have hglen : f.graph.length = N := by rw [hgraph]; exact hlen _
+  have huni : Uniform f.graph N f.k := uniform_of_exact hglen hex'
+  have hdeg : degree f.graph = f.k := huni.degree hN
+  have huni' : Uniform f.graph N (degree f.graph) := by rw [hdeg]; exact huni
+  have hex'' : ∀ u (hu : u < f.graph.length),
+      IsExactKnn (kernelDist sqrtD κ) (List.range N) (degree f.graph) u f.graph[u] := by rw [hdeg]; exact hex'
+  have hconn : isConnected N f.graph = .ok true := by
+    obtain ⟨b, hb, hiff⟩ := isConnected_iff hN (huni.not_oob hN)
+    rw [hb, hiff.2 hsc]
+  have hfwd := forwardOf_uniform huni hN
+  have hdk' : d ≤ degree f.graph := by rw [hdeg]; omega
+  have hk0 : ((degree f.graph : Nat) : K) ≠ 0 := Nat.cast_ne_zero.2 (by rw [hdeg]; omega)
+  obtain ⟨M', hM', hMeq⟩ := C08.hlle_M_eq (nbOf f.graph N (degree f.graph)) sqrtO thr
+    (fun i => localEig _ (localCentered (kMat κ N) (nbOf f.graph N (degree f.graph) i)))
+  refine ⟨{ found := f, k := degree f.graph, nb := nbOf f.graph N (degree f.graph),
+            U := fun i => localEig _ (localCentered (kMat κ N) (nbOf f.graph N (degree f.graph) i)),
+            M := M', V := (solver M').1, lam := (solver M').2,
+            Y := fun i c => (solver M').1 i (shiftIdx 1 hd c) }, ?_, ?_, ?_, ?_, ?_, ?_, ?_⟩
+  · unfold hlleEmbedModel
+    simp only [hf, hfwd, if_pos hdk', hM', dif_pos hd]
+  · exact ⟨j, hkj, hkle, hconn, hsc, hmin, htried⟩
+  · exact ⟨hgraph, hglen, hex'⟩
+  · exact ⟨hdeg, fun i a => nbOf_spec huni' i a, fun i => (nbOf_exact huni' hex'' i).1,
+      fun i a => (nbOf_exact huni' hex'' i).2 a⟩
+  · refine ⟨fun _ => rfl, hdk', fun i a b => rfl, fun i a b => C08.centerMatrix_eq _ a b,
+      fun i a => C08.centerMatrix_rows_sum_zero _ (localGramSym_symm _ _) hk0 a,
+      fun i a b => C08.hlle_proj_eq sqrtO thr _ a b⟩
+  · exact ⟨hM', hMeq⟩
+  · refine ⟨rfl, by ext i c; rfl, ?_⟩
+    intro hsys hthr hE hsimple
+    exact C08.hlle_end_to_end _ sqrtO thr _
+      (fun i => (C08.hlle_gs_contract sqrtO thr (not_lt.2 hthr) _ (hE i)).2) M' hM' _ _ hsys hd hsimple
+
+/-- non-vacuity of the composition: on the rectangle instance with requested `k = 3 = 1 + d + dp` (the minimum HLLE
+    neighbourhood size at `d = 1`) the composed HLLE model runs and `hessian_weight_matrix` reads `k' = 3`.  The
+    hypotheses of conjunct 6 are those of `C08.hlle_end_to_end` / `C08.hlle_gs_contract`; `GsExact` normalises the
+    constant column by `√k'`, so it has no instance over `ℚ` at `k' = 3` (see `C08.hlle_nullspace_exact_min_k`) — the
+    joint satisfiability of the hypotheses of conjunct 6 is NOT machine-checked. -/
+example : ∃ o, hlleEmbedModel exκ 4 3 true 1 (bruteSearch (kernelDist exSqrt exκ) 4)
+      (fun _ _ _ _ => (0 : ℚ)) exSqrt (1 / 10000) exSolver = .ok o ∧ o.found.k = 3 ∧ o.k = 3 := by
+  obtain ⟨o, ho, ⟨j, hkj, hle, _⟩, _, ⟨h3, _⟩, _, _, _⟩ :=
+    hlle_end_to_end exκ exSqrt (N := 4) (by decide) (k := 3) (by decide) (by decide) (d := 1) (by decide) (by decide)
+      (bruteSearch (kernelDist exSqrt exκ) 4) (bruteSearch_length _ 4)
+      (fun k hk => bruteSearch_exact (by decide) ex_self k hk) (fun _ _ _ _ => (0 : ℚ)) exSqrt (1 / 10000) exSolver
+  have hle' : o.found.k ≤ 3 := by rw [hkj]; exact Nat.min_le_right _ _
+  have hk3 : o.found.k = 3 := by omega
+  exact ⟨o, ho, hk3, by rw [h3, hk3]⟩
+
 end TapkeeVerif.LleCompose
